@@ -284,10 +284,14 @@ func (e *Engine) verifyFunc(fc *FuncContract) (res *FuncResult) {
 			v, _ := e.lookupVar(out, r)
 			vals = append(vals, e.deLoc(out, v, r.Type()))
 		}
-		cx.returns = append(cx.returns, &retState{st: out, vals: vals, pos: body.Rbrace})
+		cx.returns = append(cx.returns, &retState{st: out, vals: vals, pos: body.Rbrace, nd: len(cx.defers)})
 	}
 	for ri, r := range cx.returns {
-		for i := len(cx.defers) - 1; i >= 0; i-- {
+		nd := len(cx.defers)
+		if r.nd >= 0 && r.nd < nd {
+			nd = r.nd // only the defer statements reached before this return run
+		}
+		for i := nd - 1; i >= 0; i-- {
 			if r.st != nil {
 				r.st = e.execStmt(r.st, cx.defers[i], &Ctx{results: results})
 			}
